@@ -475,7 +475,8 @@ def _api_calls():
     C['cf.circle_segment'] = lambda sp, tmp: cf(sp).circle_segment(1.0, 2.0)
     C['cf.circle_segment_from_three_points'] = lambda sp, tmp: cf(sp).circle_segment_from_three_points([0, 0], [1, 1], [2, 0])
     C['cf.interpolate'] = lambda sp, tmp: cf(sp).interpolate(np.array([[0, 0], [1, 2], [2, 1], [3, 3.0]]), basis(sp).make_periodic(-1) if False else sp.BSplineBasis(3, [0, 0, 0, 1, 2, 2, 2]))
-    C['cf.cubic_curve'] = lambda sp, tmp: [cf(sp).cubic_curve(np.array([[0, 0], [1, 2], [2, 1], [3, 3.0], [4, 0]]), b) for b in (1, 2, 3, 4)]
+    for _b in (1, 2, 4, 5):
+        C['cf.cubic_curve-boundary=%d' % _b] = (lambda bb: lambda sp, tmp: cf(sp).cubic_curve(np.array([[0, 0], [1, 2], [2, 1], [3, 3.0], [0, 0]]), bb))(_b)
     C['cf.least_square_fit'] = lambda sp, tmp: cf(sp).least_square_fit(np.array([[0, 0], [1, 2], [2, 1], [3, 3.0], [4, 0]]), sp.BSplineBasis(3, [0, 0, 0, 1, 1, 1]), [0, .25, .5, .75, 1])
     C['cf.bezier'] = lambda sp, tmp: cf(sp).bezier([[0, 0], [1, 1], [2, 0], [3, 1]], quadratic=False)
     C['cf.fit'] = lambda sp, tmp: cf(sp).fit(lambda t: np.array([np.cos(t), np.sin(t)]).T, 0, 1, rtol=1e-3, atol=1e-3)
@@ -504,7 +505,6 @@ def _api_calls():
     C['curve.arithmetic'] = lambda sp, tmp: (crv2(sp) + (1, 1, 1), crv2(sp) * 2, -crv2(sp) if hasattr(crv2(sp), '__neg__') else None)
     C['curve.continuity-knots'] = lambda sp, tmp: (crv(sp).continuity(1.0), crv(sp).knots(0, True), crv2(sp).knots())
     C['curve.get_derivative_spline'] = lambda sp, tmp: crv2(sp).get_derivative_spline()
-    C['curve.closest_point'] = lambda sp, tmp: crv2(sp).closest_point(np.array([1.0, 1.0, 0.5]))
 
     C['sf.square-disc'] = lambda sp, tmp: (sf(sp).square(), sf(sp).disc(1, type='radial'), sf(sp).disc(1, type='square'))
     C['sf.sphere-cylinder-torus'] = lambda sp, tmp: (sf(sp).sphere(), sf(sp).cylinder(), sf(sp).torus())
@@ -624,7 +624,7 @@ def _api_calls():
 
     def svg_write(sp, tmp):
         with _mod(sp, 'io').SVG(os.path.join(tmp, 'o.svg')) as g:
-            g.write([cf(sp).circle(1.0), sf(sp).square()])
+            g.write([cf(sp).cubic_curve(np.array([[0, 0], [1, 2], [2, 1], [3, 3.0]])), sf(sp).square()])
 
     def stl_write(sp, tmp):
         with _mod(sp, 'io').STL(os.path.join(tmp, 'o.stl')) as g:
@@ -898,6 +898,8 @@ def compare(s, iv, mv):
         if isinstance(iv, Err) or not isinstance(mv, list) or len(iv) != len(mv):
             return 'impl %r vs model %r' % (iv, mv)
         for i, (a, m, op) in enumerate(zip(iv, mv, s['ops'])):
+            if isinstance(a, str) and a.startswith('err:'):
+                a = Err(a[4:])
             if op[0] == 'get' and isinstance(m, list) and isinstance(a, list):
                 # `_candidate` returns one of the matching stored keys
                 if not any(diff(a[0], x, rtol=0.0, atol=0.0) is None for x in m):
